@@ -156,7 +156,7 @@ def tv_events(rng, tier):
                     r_ = rng.random()
                     if r_ < 0.2 and m > 1 and not none_mode:
                         X, Y = X.reshape(rows, m, B), Y.reshape(rows, m, B)       # 3-D layout, one block per trailing row
-                    elif r_ < 0.5 and not none_mode:
+                    elif r_ < 0.5:          # (also for block_size=None: a block is then the whole batch item, whatever its trailing dimensions)
                         # any factorisation of the item into trailing dimensions: blocks are consecutive groups of the flattened item,
                         # whether or not the last dimension is a multiple of the block size
                         P = m * B
